@@ -519,9 +519,23 @@ func c06Judge(w *World, before, after, partial *Model, callErr error, panicked b
 		return "acknowledged"
 	}
 	// an error was returned
-	liveBefore, _ := w.stateIs(before)
+	liveBefore, whyLive := w.stateIs(before)
 	var liveCtl error
 	w.call("Control", func() { liveCtl = w.db.Control() })
+	if !liveBefore && !sod.IsIndexCorrupted(liveCtl) {
+		// the live handle changed although the call failed: acceptable only
+		// when the call was in fact applied (entirely, or the first n members
+		// of a batch that says so); anything else diverges silently
+		okA, _ := w.stateIs(after)
+		okP := false
+		if partial != nil {
+			okP, _ = w.stateIs(partial)
+		}
+		if !okA && !okP {
+			add("live-handle-diverges-silently", "the call returned an error, Control() on the same handle reports nothing, but reads/searches on it are neither the state before nor after the call: "+whyLive)
+			return "violation"
+		}
+	}
 	// second handle on the directory. In synchronous mode the faulty handle
 	// is abandoned (its Close could itself repair or damage things); in
 	// asynchronous mode accepted writes only reach the disk through Close.
